@@ -154,7 +154,10 @@ static void setup(RegP *p, int tr, int mem16, size_t blocksize, Arr *a)
     Source s = OCTET_SOURCE_INIT(src_octet, a);
     if (srcflavour) { Source c = CHUNK_SOURCE_INIT(src_chunk, a); s = c; }
     if (srcflavour == 3) s.ext.getbuffer = src_getbuffer;
-    Sink k = CHUNK_SINK_INIT(snk, NULL);
+    /* the channel's sink in three styles (!flav): whole chunks, one octet per call, octet-style */
+    static FlavSink fks[4]; static unsigned fki;
+    Sink k;
+    flav_sink_init(&k, &fks[fki++ % 4], snk, NULL, harness_flavour);
     regp_use_channel(p, tr == 0 ? RP_EP_SERIAL : RP_EP_TCP, s, k);
     L.blocksize = blocksize;
     if (L.slab) { BlockAllocator ba = MAKE_SLAB_BLOCKALLOC(NULL, l_slab, l_free, blocksize); BA = ba; }
